@@ -11,7 +11,45 @@
 // The translator transcribes; it does not decide neutrality.  Whether a class is harmless at a
 // site is decided by Tmpl/Analyze.v running the lexer DFA over the literal text around it.
 //
-//	c06t [-repo DIR] [-out coq/gen/Templates.v] [-sites sites.json] [-selfcheck]
+//	c06t [-repo DIR] [-out coq/gen/Templates.v] [-sites sites.json] [-selfcheck] [-limit N] [-q]
+//
+//	-repo      repository root (default $VERIF_REPO, else /repo)
+//	-out       the generated Coq file (rewritten only when its content changes)
+//	-sites     JSON side file, one object per site (template, id, line, pipeline, Go type, field key,
+//	           helper function, class, reason, parent/part/parts for expanded sites, quote context)
+//	-selfcheck (a) the literal text of the abstract template equals, in order, the TextNodes of
+//	           text/template/parse; (b) ROUND TRIP: each real template is executed by text/template on
+//	           six data values built by reflection (strings sampled from their declared classes) and
+//	           the real output must be derivable from the abstract template, decided exactly by an
+//	           NFA simulation (Text literally, Site = any bytes in the structural run, = the language
+//	           of its class in the class-aware run, Choice, Star).  Exit 1 when a check fails.
+//	-limit     maximal number of nodes per Coq Definition (larger subterms are hoisted)
+//
+// Exit status: 0 also when there are CUnknown sites (the Rocq obligation fails closed), 2 on
+// parse / IO errors.
+//
+// Control flow: {{if}}A{{end}} -> opt A; {{if}}A{{else}}B{{end}} -> Choice A B; {{with}} like if (dot
+// and variable types change); {{range}}A{{end}} -> Star A; {{range}}A{{else}}B{{end}} -> Choice (Seq A
+// (Star A)) B; declarations / assignments emit nothing; {{template}}, {{define}}, {{block}},
+// {{break}}, {{continue}} -> Site (CUnknown ...).
+//
+// Classification of an output action (first match):
+//  1. tab.Shape["pipe:<tmpl>|<pipeline>"] / tab.PipelineClass["<tmpl>|<pipeline>"] override;
+//  2. the value cannot be resolved statically (unknown field, method with a non int/bool result,
+//     unknown function, re-assigned variable, ...) -> CUnknown;
+//  3. integer kinds -> CInt, bool -> CLit [true; false], pointers to those additionally <nil>;
+//  4. variables assigned only from string literals -> CLit [the literals];
+//  5. printf with a literal format: %q of a string -> CQuoted, %d/%v of an integer -> CInt, %s/%v of
+//     a string -> the class of the operand, literal text around -> Text; other verbs -> CUnknown;
+//     printf with the VALUE as format (X | printf): the class of X if it is closed under
+//     Sprintf-without-operands (byte-set classes, CInt, CLines, %-free literals), else CUnknown;
+//  6. helper functions: toLower / toUpper / trim preserve the class (CLit alternatives are
+//     mapped); makeSecretPath = join of the byte-set classes of its path and variable arguments;
+//     every other helper needs an entry in tab.FuncClass or tab.Shape["func:<name>"];
+//  7. string fields: the elements of []string fields whose name contains Snippet -> CEmpty;
+//     otherwise tab.Shape[key] (expanded into a sub-template, one site per class leaf) or
+//     tab.FieldClass[key]; no entry -> CUnknown;
+//  8. inside {{if X}} / {{with X}} the empty alternative of X's class is dropped.
 package main
 
 import (
@@ -22,6 +60,7 @@ import (
 	"os"
 	"path/filepath"
 	"reflect"
+	"regexp"
 	"sort"
 	"strings"
 	"text/template"
@@ -104,6 +143,43 @@ type siteInfo struct {
 	Parent   int    `json:"parent"` // id of the first part of the same output action (== ID when not expanded)
 	Part     int    `json:"part"`   // index of this leaf inside an expanded (shaped) site; 0 when not expanded
 	Parts    int    `json:"parts"`  // number of leaves of the expansion; 1 when not expanded
+	// Ctx is a LINT hint only (the decision is taken by Tmpl/Analyze.v): how the action stands on
+	// its source line, "dq" / "sq" when an odd number of double / single quotes precedes it on the
+	// line (actions removed), else "bare".
+	Ctx string `json:"ctx"`
+}
+
+var actionRe = regexp.MustCompile(`\{\{.*?\}\}`)
+
+func quoteContext(text string, pos parse.Pos) string {
+	p := int(pos)
+	if p > len(text) {
+		p = len(text)
+	}
+	start := strings.LastIndex(text[:p], "{{")
+	if start < 0 {
+		return "bare"
+	}
+	line := text[strings.LastIndex(text[:start], "\n")+1 : start]
+	line = actionRe.ReplaceAllString(line, "")
+	dq, sq := false, false
+	for i := 0; i < len(line); i++ {
+		switch {
+		case line[i] == '"' && !sq:
+			dq = !dq
+		case line[i] == '\'' && !dq:
+			sq = !sq
+		case line[i] == '#' && !dq && !sq:
+			return "comment"
+		}
+	}
+	switch {
+	case dq:
+		return "dq"
+	case sq:
+		return "sq"
+	}
+	return "bare"
 }
 
 // ------------------------------------------------------------------------------------------------
@@ -137,11 +213,107 @@ type tmplCtx struct {
 	nextID  int
 	census  map[string]int
 	usedKey map[string]bool
+	// non-empty refinement: inside {{if X}} / {{with X}} the value of X is not the empty string
+	nonEmpty []neEntry
+	dotEpoch int
+	epochs   int
 }
 
-func (c *tmplCtx) push()                       { c.scopes = append(c.scopes, map[string]*binding{}) }
-func (c *tmplCtx) pop()                        { c.scopes = c.scopes[:len(c.scopes)-1] }
-func (c *tmplCtx) bind(name string, v val)     { c.scopes[len(c.scopes)-1][name] = &binding{v: v} }
+type neEntry struct {
+	text  string
+	epoch int
+	b     *binding
+}
+
+// condKey returns the text of a condition that is a plain field / variable chain.
+func condKey(p *parse.PipeNode) (string, bool) {
+	if p == nil || len(p.Cmds) != 1 || len(p.Cmds[0].Args) != 1 {
+		return "", false
+	}
+	switch p.Cmds[0].Args[0].(type) {
+	case *parse.FieldNode, *parse.VariableNode:
+		return p.Cmds[0].Args[0].String(), true
+	}
+	return "", false
+}
+
+func varOf(text string) string {
+	if !strings.HasPrefix(text, "$") {
+		return ""
+	}
+	if i := strings.Index(text, "."); i >= 0 {
+		return text[:i]
+	}
+	return text
+}
+
+func (c *tmplCtx) pushNonEmpty(text string) {
+	e := neEntry{text: text, epoch: c.dotEpoch}
+	if v := varOf(text); v != "" {
+		e.b = c.lookup(v)
+		if e.b == nil || e.b.v.isLit {
+			// unknown or re-assignable variable: no refinement
+			e.text = ""
+		}
+	}
+	c.nonEmpty = append(c.nonEmpty, e)
+}
+
+func (c *tmplCtx) popNonEmpty() { c.nonEmpty = c.nonEmpty[:len(c.nonEmpty)-1] }
+
+func (c *tmplCtx) isNonEmpty(text string) bool {
+	for _, e := range c.nonEmpty {
+		if e.text == "" || e.text != text {
+			continue
+		}
+		if strings.HasPrefix(text, ".") && e.epoch != c.dotEpoch {
+			continue
+		}
+		if v := varOf(text); v != "" && c.lookup(v) != e.b {
+			continue
+		}
+		return true
+	}
+	return false
+}
+
+// dropEmpty removes the empty string from the top-level alternatives of a shape.
+func dropEmpty(p tab.Pat) tab.Pat {
+	switch p.K {
+	case "C":
+		if alts, ok := tab.LitAlts(p.Class); ok {
+			var keep []string
+			for _, a := range alts {
+				if a != "" {
+					keep = append(keep, a)
+				}
+			}
+			if len(keep) > 0 && len(keep) < len(alts) {
+				return tab.C(tab.Lit(keep...))
+			}
+		}
+	case "A":
+		var kids []tab.Pat
+		for _, k := range p.Kids {
+			if (k.K == "T" && k.Text == "") || (k.K == "S" && len(k.Kids) == 0) {
+				continue
+			}
+			kids = append(kids, dropEmpty(k))
+		}
+		switch len(kids) {
+		case 0:
+			return p
+		case 1:
+			return kids[0]
+		}
+		return tab.Pat{K: "A", Kids: kids}
+	}
+	return p
+}
+
+func (c *tmplCtx) push()                   { c.scopes = append(c.scopes, map[string]*binding{}) }
+func (c *tmplCtx) pop()                    { c.scopes = c.scopes[:len(c.scopes)-1] }
+func (c *tmplCtx) bind(name string, v val) { c.scopes[len(c.scopes)-1][name] = &binding{v: v} }
 func (c *tmplCtx) lookup(name string) *binding {
 	for i := len(c.scopes) - 1; i >= 0; i-- {
 		if b, ok := c.scopes[i][name]; ok {
@@ -652,13 +824,7 @@ func noteSep(s string) string {
 	return "; " + s
 }
 
-func isSnippetKey(key string) bool {
-	if !strings.HasSuffix(key, "[]") {
-		return false
-	}
-	f := key[strings.LastIndex(key, ".")+1:]
-	return strings.Contains(f, "Snippet")
-}
+func isSnippetKey(key string) bool { return tab.SnippetKey(key) }
 
 // resolve replaces the field references of a shape and records the keys as used.
 func (c *tmplCtx) resolve(p tab.Pat) tab.Pat {
@@ -822,7 +988,7 @@ func (c *tmplCtx) expandPat(p tab.Pat, base siteInfo) *node {
 
 func (c *tmplCtx) siteFor(a *parse.ActionNode, dot val) *node {
 	pipeText := a.Pipe.String()
-	base := siteInfo{Line: c.line(a.Pos), Pipeline: pipeText, Parts: 1}
+	base := siteInfo{Line: c.line(a.Pos), Pipeline: pipeText, Parts: 1, Ctx: quoteContext(c.text, a.Pos)}
 	okey := c.base + "|" + pipeText
 	if p, ok := tab.Shape["pipe:"+okey]; ok {
 		p = c.resolve(p)
@@ -852,6 +1018,12 @@ func (c *tmplCtx) siteFor(a *parse.ActionNode, dot val) *node {
 		base.Parent = c.nextID
 		return c.newSite(base)
 	}
+	refined := false
+	if c.isNonEmpty(pipeText) {
+		q := dropEmpty(p)
+		refined = !reflect.DeepEqual(p, q)
+		p = q
+	}
 	switch {
 	case v.note != "":
 		base.Reason = v.note
@@ -868,8 +1040,14 @@ func (c *tmplCtx) siteFor(a *parse.ActionNode, dot val) *node {
 	default:
 		base.Reason = "tab.FieldClass / tab.Shape of " + v.key
 	}
+	if refined {
+		base.Reason += "; empty string excluded by the enclosing {{if}}/{{with}} on the same value"
+	}
 	if _, weak := tab.KnownWeak[v.key]; weak {
 		base.Reason += "; KNOWN WEAK " + tab.KnownWeak[v.key]
+	}
+	if _, sus := tab.Suspect[v.key]; sus {
+		base.Reason += "; SUSPECT (see tab.Suspect)"
 	}
 	return c.expandPat(p, base)
 }
@@ -1019,7 +1197,14 @@ func (c *tmplCtx) walkList(l *parse.ListNode, dot val) *node {
 			if len(n.Pipe.Decl) > 0 && !n.Pipe.IsAssign {
 				c.declare(n.Pipe, dot, n.List.Nodes)
 			}
+			ck, refine := condKey(n.Pipe)
+			if refine {
+				c.pushNonEmpty(ck)
+			}
 			a := c.walkList(n.List, dot)
+			if refine {
+				c.popNonEmpty()
+			}
 			c.pop()
 			if n.ElseList != nil {
 				c.push()
@@ -1036,7 +1221,27 @@ func (c *tmplCtx) walkList(l *parse.ListNode, dot val) *node {
 			if len(n.Pipe.Decl) > 0 && !n.Pipe.IsAssign {
 				c.declare(n.Pipe, dot, n.List.Nodes)
 			}
+			saveEpoch := c.dotEpoch
+			c.epochs++
+			c.dotEpoch = c.epochs
+			pushed := 0
+			if ck, ok := condKey(n.Pipe); ok {
+				if !strings.HasPrefix(ck, ".") {
+					c.pushNonEmpty(ck)
+					pushed++
+				}
+				for _, d := range n.Pipe.Decl {
+					if !n.Pipe.IsAssign {
+						c.pushNonEmpty(d.Ident[0])
+						pushed++
+					}
+				}
+			}
 			a := c.walkList(n.List, v)
+			for ; pushed > 0; pushed-- {
+				c.popNonEmpty()
+			}
+			c.dotEpoch = saveEpoch
 			c.pop()
 			if n.ElseList != nil {
 				c.push()
@@ -1075,7 +1280,11 @@ func (c *tmplCtx) walkList(l *parse.ListNode, dot val) *node {
 				c.bind(n.Pipe.Decl[0].Ident[0], kv)
 				c.bind(n.Pipe.Decl[1].Ident[0], ev)
 			}
+			saveEpoch := c.dotEpoch
+			c.epochs++
+			c.dotEpoch = c.epochs
 			a := c.walkList(n.List, ev)
+			c.dotEpoch = saveEpoch
 			c.pop()
 			if n.ElseList != nil {
 				// the body is walked a second time so that the copy gets its own site ids
@@ -1087,7 +1296,10 @@ func (c *tmplCtx) walkList(l *parse.ListNode, dot val) *node {
 					c.bind(n.Pipe.Decl[0].Ident[0], kv)
 					c.bind(n.Pipe.Decl[1].Ident[0], ev)
 				}
+				c.epochs++
+				c.dotEpoch = c.epochs
 				a2 := c.walkList(n.List, ev)
+				c.dotEpoch = saveEpoch
 				c.pop()
 				c.push()
 				b := c.walkList(n.ElseList, dot)
@@ -1146,10 +1358,10 @@ func coqText(s string) string {
 }
 
 type emitter struct {
-	name  string
-	defs  []string // hoisted definitions, in dependency order
+	name   string
+	defs   []string // hoisted definitions, in dependency order
 	nhoist int
-	limit int
+	limit  int
 }
 
 func (e *emitter) hoist(term string) string {
@@ -1316,6 +1528,17 @@ func countNodes(n *node, m map[string]int) {
 	}
 }
 
+func textBytes(n *node) int {
+	t := 0
+	if n.kind == nText {
+		t = len(n.text)
+	}
+	for _, k := range n.kids {
+		t += textBytes(k)
+	}
+	return t
+}
+
 func classHead(cl string) string {
 	if i := strings.IndexAny(cl, " ["); i >= 0 {
 		return cl[:i]
@@ -1382,6 +1605,18 @@ func main() {
 			sep = ""
 		}
 		fmt.Fprintf(&b, "  (\"%s\", tmpl_%s)%s\n", r.ctx.name, r.ctx.name, sep)
+	}
+	b.WriteString("].\n\n(* per template: number of sites and number of bytes of literal text, as counted by the translator on\n   its own tree (a check that the split into several Definitions lost nothing) *)\nDefinition template_stats : list (string * (nat * nat)) := [\n")
+	for i, r := range results {
+		sep := ";"
+		if i == len(results)-1 {
+			sep = ""
+		}
+		m := map[string]int{}
+		countNodes(r.root, m)
+		tb := textBytes(r.root)
+		// numerals above 5000 in nat make Coq print a warning: write q * 1000 + r
+		fmt.Fprintf(&b, "  (\"%s\", (%d, %d * 1000 + %d))%s\n", r.ctx.name, m["Site"], tb/1000, tb%1000, sep)
 	}
 	b.WriteString("].\n\nDefinition all_site_tables : list (string * list site_row) := [\n")
 	for i, r := range results {
@@ -1465,6 +1700,17 @@ func printCensus(results []*result) {
 				fmt.Printf("  UNKNOWN site %d line %d {{%s}}: %s\n", s.ID, s.Line, s.Pipeline, s.Reason)
 			}
 		}
+		for _, s := range c.sites {
+			h := classHead(s.Class)
+			switch {
+			case s.Parts > 1:
+				// expanded shapes bring their own quotes; not linted
+			case (h == "CDQ") != (s.Ctx == "dq") && h != "CWord" && h != "CInt" && h != "CLit" && h != "CWordVar" && h != "CEmpty":
+				fmt.Printf("  LINT site %d line %d {{%s}}: class %s in %s context\n", s.ID, s.Line, s.Pipeline, h, s.Ctx)
+			case h == "CWordVar" && s.Ctx == "sq":
+				fmt.Printf("  LINT site %d line %d {{%s}}: class %s in %s context\n", s.ID, s.Line, s.Pipeline, h, s.Ctx)
+			}
+		}
 		for k := range c.usedKey {
 			usedKeys[k] = true
 		}
@@ -1536,7 +1782,7 @@ type nstate struct {
 
 type nfa struct{ st []nstate }
 
-func (m *nfa) add() int { m.st = append(m.st, nstate{}); return len(m.st) - 1 }
+func (m *nfa) add() int     { m.st = append(m.st, nstate{}); return len(m.st) - 1 }
 func (m *nfa) eps(a, b int) { m.st[a].eps = append(m.st[a].eps, b) }
 func (m *nfa) edge(a int, set *[256]bool, b int) {
 	if m.st[a].set != nil {
@@ -1754,7 +2000,8 @@ func (m *nfa) run(start, accept int, input []byte) (bool, int, int) {
 type filler struct {
 	mode      int
 	n         int
-	ptrAlways bool // never leave a pointer nil (second attempt when the template dereferences one unguarded)
+	ptrAlways bool              // never leave a pointer nil or a slice empty (second attempt when the template dereferences / indexes one unguarded)
+	override  map[string]string // field key -> class, from the PipelineClass overrides of the template at hand
 }
 
 func sampleClass(cls string, n int) string {
@@ -1818,6 +2065,9 @@ func (f *filler) str(key string) string {
 	}
 	if isSnippetKey(key) {
 		return ""
+	}
+	if c, ok := f.override[key]; ok {
+		return sampleClass(c, f.n)
 	}
 	cls, pat, ok := tab.Lookup(key)
 	if !ok {
@@ -1889,6 +2139,9 @@ func (f *filler) fill(v reflect.Value, key string, depth int) {
 		if f.mode >= 3 {
 			f.n++
 			n = f.n % 3
+			if f.ptrAlways && n == 0 {
+				n = 1
+			}
 		}
 		s := reflect.MakeSlice(t, n, n)
 		for i := 0; i < n; i++ {
@@ -1927,6 +2180,15 @@ func fixup(root any, mode int) {
 		for i := range r.Servers {
 			for j := range r.Servers[i].Locations {
 				l := &r.Servers[i].Locations[j]
+				if mode != 2 {
+					// the real validator makes a path an escaped string without white space, which is
+					// what the quoted alternatives of makeLocationPath rely on; sample from
+					// CBareTok and CDQ at the same time
+					l.Path = fmt.Sprintf("/p%d/a.b$x}#'", i*10+j)
+					if j%3 == 2 {
+						l.Path = "= " + l.Path
+					}
+				}
 				if l.MinionIngress != nil {
 					l.MinionIngress.Annotations = map[string]string{"nginx.org/mergeable-ingress-type": "minion"}
 					if j%2 == 0 {
@@ -1962,11 +2224,17 @@ func selfCheck(r *result) bool {
 	le := loose.build(r.root, ls, false)
 	ss := strict.add()
 	se := strict.build(r.root, ss, true)
+	override := map[string]string{}
+	for _, si := range c.sites {
+		if si.Field != "" && strings.Contains(si.Reason, "tab.PipelineClass override") {
+			override[si.Field] = si.Class
+		}
+	}
 	for mode := 0; mode < 6; mode++ {
 		var buf bytes.Buffer
 		var rerr error
 		for attempt := 0; attempt < 2; attempt++ {
-			f := &filler{mode: mode, ptrAlways: attempt == 1}
+			f := &filler{mode: mode, ptrAlways: attempt == 1, override: override}
 			root := reflect.New(deref(r.spec.root))
 			rt := deref(r.spec.root)
 			f.fill(root.Elem(), pkgBase(rt)+"."+rt.Name(), 0)
